@@ -11,7 +11,9 @@ Correspondence, per (mode, initial content, call sequence):
         MemoryFS, OSFS (buffering=0), RawWrapper over both, zip/tar members (mode r);
         OSFS with default buffering == Python's own buffered open() of the same mode.
 A backend that differs from io.FileIO is a failing input of the property unless the first
-deviating call (computed by the Lean model, `file.dev`) is a recorded finding / tolerated class.
+deviating call (computed by the Lean model, `file.dev`) is one of the two documented tolerances
+(vacuous readline(0) / writelines([]) on a handle without permission) or the open finding
+`append_empty_write`.
 """
 from __future__ import annotations
 
@@ -28,7 +30,7 @@ from vlib import hx
 SCRATCH_ROOT = os.environ.get("VERIF_SCRATCH", "/tmp/verif-scratch")
 MODES = ["r", "r+", "w", "w+", "a", "a+", "x", "x+"]
 INITS = [b"", b"a", b"0123", b"ab\ncd\n\nef"]
-TOLERATED = {"writelines_empty_readonly", "append_empty_write", "readline_zero_unreadable"}
+TOLERATED = {"readline_zero", "writelines_empty_readonly"}
 MAXVIOL = 6
 LEANCHECKER_MODULES = ["FsProofs.C16"]
 
@@ -498,18 +500,27 @@ def random_long(rng, count, length=20):
 
 
 REGRESSIONS = [
-    # (mode, init, ops) — one minimal session per recorded finding
+    # (mode, init, ops) — the repaired defects must stay repaired (any of them returning is a violation):
+    # 4a1749f closed handle, c173fc2 negative relative seek, d2dd72d truncate() past EOF, dee803f iteration
     ("r+", b"0123", (("close",), ("read", None))),
     ("r+", b"0123", (("close",), ("write", b"X"))),
+    ("w", b"", (("close",), ("tell",), ("flush",), ("seek", 0, 0), ("truncate", 0))),
     ("r+", b"0123", (("seek", -1, 1),)),
+    ("r", b"0123", (("seek", -9, 2), ("tell",))),
     ("r+", b"0123", (("seek", 10, 0), ("truncate", None))),
+    ("w", b"0123", (("seek", 10, 0), ("truncate", None))),
     ("r", b"a\nb", (("iter",), ("read", None))),
     ("a", b"a\nb", (("seek", 0, 0), ("next",))),
-    # the four defects repaired by 5781f51 stay repaired
+    ("a", b"a\nb", (("seek", 0, 0), ("iter",))),
+    # 5781f51
     ("r+", b"0123", (("seek", 2, 0), ("truncate", 8), ("tell",))),
     ("a", b"0123", (("seek", 0, 0), ("write", b"X"))),
     ("r", b"0123", (("truncate", 0),)),
     ("r", b"0123", (("writelines", (b"X",)),)),
+    # the open finding (append_empty_write) and the two tolerances
+    ("a+", b"0123", (("seek", 0, 0), ("write", b""), ("read", None))),
+    ("w", b"", (("readline", 0),)),
+    ("r", b"", (("writelines", ()),)),
 ]
 
 
@@ -768,7 +779,7 @@ def run(rep, tier, seed, deep=False):
         "exceptions are compared by family: not-permitted (UnsupportedOperation/OSError), invalid argument (ValueError/OSError EINVAL), closed (ValueError ... closed)",
         "readlines(hint), read(n<-1), whence outside 0..2, non-bytes arguments, two handles on one file, text mode layers (see C02) are not explored",
         "FTPFS file objects are out of scope of this package (needs a server)",
-        "tolerated, not findings: readline(0) rejected on a write-only MemoryFS handle; writelines([]) rejected on a read-only MemoryFS handle; zero-length write in append mode moves the MemoryFS position to EOF",
+        "documented tolerance (either behaviour satisfies the property text): readline(0) on a closed or unreadable handle (io.FileIO returns b'' without touching the file, MemoryFS rejects it); writelines([]) on a read-only handle (io.FileIO accepts the vacuous call, MemoryFS rejects it)",
     ]
     T = Targets()
     try:
